@@ -1137,32 +1137,47 @@ fn cmd_c14() -> (u64, Vec<String>) {
     let ms = Duration::from_millis;
     // (per-test timeout, document timeout, command sleeps, expected)
     let table: Vec<(Option<Duration>, Option<Duration>, &str, &str)> = vec![
-        (Some(ms(300)), Some(ms(5000)), "sleep 2", "index"),
-        (Some(ms(5000)), Some(ms(300)), "sleep 2", "total"),
-        (Some(ms(300)), None, "sleep 2", "index"),
-        (None, Some(ms(300)), "sleep 2", "total"),
+        (Some(ms(300)), Some(ms(5000)), "sleep 3", "index"),
+        (Some(ms(5000)), Some(ms(300)), "sleep 3", "total"),
+        (Some(ms(300)), None, "sleep 3", "index"),
+        (None, Some(ms(300)), "sleep 3", "total"),
         (None, Some(ms(0)), "sleep 0.5", "none"),
         (None, Some(ms(5000)), "sleep 0.3", "none"),
         (Some(ms(5000)), Some(ms(5000)), "true", "none"),
+        // a per-test-case timeout is a limit of its own: also when the document is unlimited, and when both limits are the same length
+        (Some(ms(300)), Some(ms(0)), "sleep 3", "index"),
+        (Some(ms(5000)), Some(ms(0)), "sleep 0.3", "none"),
     ];
     let mut bad = vec![];
     let mut cases = 0u64;
     for (tt, dt, cmd, want) in table {
-        cases += 1;
-        let context = Context { work_directory: work.path().to_path_buf(), temp_directory: temp.path().to_path_buf(), file: std::path::PathBuf::from("doc.md"),
-            config: DocumentConfig { total_timeout: dt, ..DocumentConfig::default() } };
-        let tc = TestCase { title: "t".into(), shell_expression: cmd.into(), expectations: vec![], exit_code: None, line_number: 1, config: TestCaseConfig { timeout: tt, ..TestCaseConfig::empty() } };
-        let ex = StatefulExecutor::new(Box::new(|state: &std::path::Path| Box::new(BashRunner::new(&std::path::PathBuf::from("/bin/bash"), state)) as Box<dyn Runner>));
-        let started = std::time::Instant::now();
-        let got = match ex.execute_all(&[&tc], &context) {
-            Ok(_) => "none".to_string(),
-            Err(ExecutionError::Timeout(ExecutionTimeout::Index(0), _)) => "index".to_string(),
-            Err(ExecutionError::Timeout(ExecutionTimeout::Total, _)) => "total".to_string(),
-            Err(e) => format!("error {e}"),
-        };
-        let took = started.elapsed();
-        if got != want {
-            bad.push(format!("{{\"why\":{},\"case\":{}}}", jstr(&format!("C14: test timeout {tt:?}, document timeout {dt:?}, `{cmd}`: outcome {got} after {took:?}, expected {want}")), jstr(cmd)));
+        // the slow test case first, or after a quick one that uses up none of the limits
+        for lead in [0usize, 1] {
+            cases += 1;
+            let context = Context { work_directory: work.path().to_path_buf(), temp_directory: temp.path().to_path_buf(), file: std::path::PathBuf::from("doc.md"),
+                config: DocumentConfig { total_timeout: dt, ..DocumentConfig::default() } };
+            let mut tcs = vec![];
+            for _ in 0..lead { tcs.push(TestCase { title: "t".into(), shell_expression: "true".into(), expectations: vec![], exit_code: None, line_number: 1, config: TestCaseConfig { timeout: tt, ..TestCaseConfig::empty() } }); }
+            tcs.push(TestCase { title: "t".into(), shell_expression: cmd.into(), expectations: vec![], exit_code: None, line_number: 1 + lead, config: TestCaseConfig { timeout: tt, ..TestCaseConfig::empty() } });
+            tcs.push(TestCase { title: "t".into(), shell_expression: "true".into(), expectations: vec![], exit_code: None, line_number: 2 + lead, config: TestCaseConfig { timeout: tt, ..TestCaseConfig::empty() } });
+            let refs: Vec<&TestCase> = tcs.iter().collect();
+            let ex = StatefulExecutor::new(Box::new(|state: &std::path::Path| Box::new(BashRunner::new(&std::path::PathBuf::from("/bin/bash"), state)) as Box<dyn Runner>));
+            let started = std::time::Instant::now();
+            let got = match ex.execute_all(&refs, &context) {
+                Ok(os) if os.len() == tcs.len() => "none".to_string(),
+                Ok(os) => format!("{} outputs for {} test cases", os.len(), tcs.len()),
+                // the outputs stop at the aborted test case: nothing after it ran
+                Err(ExecutionError::Timeout(ExecutionTimeout::Index(i), os)) if i == lead && os.len() == lead + 1 => "index".to_string(),
+                Err(ExecutionError::Timeout(ExecutionTimeout::Total, os)) if os.len() == lead + 1 => "total".to_string(),
+                Err(ExecutionError::Timeout(t, os)) => format!("timeout {t:?} with {} outputs", os.len()),
+                Err(e) => format!("error {e}"),
+            };
+            let took = started.elapsed();
+            // the limit bounds the run: the 3 s command is cut off well before it ends (300 ms limit, generous scheduling allowance)
+            let late = want != "none" && took > ms(2500);
+            if got != want || late {
+                bad.push(format!("{{\"why\":{},\"case\":{}}}", jstr(&format!("C14: test timeout {tt:?}, document timeout {dt:?}, `{cmd}` as test case {}: outcome {got} after {took:?}, expected {want}{}", lead + 1, if late { " within the limit" } else { "" })), jstr(cmd)));
+            }
         }
     }
     (cases, bad)
@@ -1193,6 +1208,14 @@ fn cmd_c15(n: usize) -> (u64, Vec<String>) {
         seqs = seqs.iter().flat_map(|s| codes.iter().map(move |c| { let mut t = s.clone(); t.push(*c); t })).collect();
         all.extend(seqs.iter().cloned());
     }
+    let stateful = || StatefulExecutor::new(Box::new(|state: &std::path::Path| Box::new(BashRunner::new(&std::path::PathBuf::from("/bin/bash"), state)) as Box<dyn Runner>));
+    let show = |res: scrut::executors::executor::Result<Vec<scrut::output::Output>>| -> Result<Vec<i32>, String> {
+        match res {
+            Ok(os) => Ok(os.iter().map(|o| match o.exit_code { ExitStatus::Code(c) => c, _ => -999 }).collect()),
+            Err(ExecutionError::Skipped(i)) => Err(format!("skipped at {i}")),
+            Err(e) => Err(format!("error {e}")),
+        }
+    };
     for seq in &all {
         for skip in [None, Some(81i32)] {
             let skip_code = skip.unwrap_or(80);
@@ -1202,16 +1225,7 @@ fn cmd_c15(n: usize) -> (u64, Vec<String>) {
             let refs: Vec<&TestCase> = tcs.iter().collect();
             for which in ["stateful", "script"] {
                 cases += 1;
-                let res = if which == "stateful" {
-                    StatefulExecutor::new(Box::new(|state: &std::path::Path| Box::new(BashRunner::new(&std::path::PathBuf::from("/bin/bash"), state)) as Box<dyn Runner>)).execute_all(&refs, &context)
-                } else {
-                    BashScriptExecutor::new(&std::path::PathBuf::from("/bin/bash")).execute_all(&refs, &context)
-                };
-                let got: Result<Vec<i32>, String> = match res {
-                    Ok(os) => Ok(os.iter().map(|o| match o.exit_code { ExitStatus::Code(c) => c, _ => -999 }).collect()),
-                    Err(ExecutionError::Skipped(i)) => Err(format!("skipped at {i}")),
-                    Err(e) => Err(format!("error {e}")),
-                };
+                let got = show(if which == "stateful" { stateful().execute_all(&refs, &context) } else { BashScriptExecutor::new(&std::path::PathBuf::from("/bin/bash")).execute_all(&refs, &context) });
                 let ok = match (&want, &got) {
                     (Ok(w), Ok(g)) => w == g,
                     // the single-script executor runs the whole script first: it reports the first test case with the skip code as well
@@ -1220,6 +1234,43 @@ fn cmd_c15(n: usize) -> (u64, Vec<String>) {
                 };
                 if !ok && bad.len() < 8 {
                     bad.push(format!("{{\"why\":{},\"case\":{}}}", jstr(&format!("C15: {which} executor, exit codes {seq:?}, skip code {skip_code}: got {got:?}, expected {}", match &want { Ok(w) => format!("the exit codes {w:?}"), Err(i) => format!("skipped at {i}") })), jstr(&format!("{seq:?}"))));
+                }
+            }
+            // the single-script executor when a LATER test case ends the shared shell (`exit 3`): a test case that exited with the skip
+            // code before that still skips the document; without one the document is not skipped (3 is not a skip code)
+            {
+                cases += 1;
+                let mut tcs2 = tcs.clone();
+                for (i, e) in ["exit 3", "echo never"].iter().enumerate() {
+                    tcs2.push(TestCase { title: "t".into(), shell_expression: e.to_string(), expectations: vec![], exit_code: None, line_number: seq.len() + i + 1, config: TestCaseConfig { skip_document_code: skip, ..TestCaseConfig::empty() } });
+                }
+                let refs2: Vec<&TestCase> = tcs2.iter().collect();
+                let got = show(BashScriptExecutor::new(&std::path::PathBuf::from("/bin/bash")).execute_all(&refs2, &context));
+                let ok = match (&want, &got) {
+                    (Err(i), Err(g)) => g == &format!("skipped at {i}"),
+                    (Err(_), Ok(_)) => false,
+                    (Ok(_), Err(g)) => !g.starts_with("skipped"),
+                    (Ok(_), Ok(_)) => true,
+                };
+                if !ok && bad.len() < 8 {
+                    bad.push(format!("{{\"why\":{},\"case\":{}}}", jstr(&format!("C15: script executor, exit codes {seq:?} followed by a test case that runs `exit 3`, skip code {skip_code}: got {got:?}, expected {}", match &want { Ok(_) => "no skip".to_string(), Err(i) => format!("skipped at {i}") })), jstr(&format!("{seq:?}+exit3"))));
+                }
+            }
+            // the per-process executor with a document-wide skip code (1) that one test case overrides: each test case is judged by
+            // ITS skip code (the override where there is one, else the document's), exactly as the parser hands the configuration down
+            for over in 0..seq.len() {
+                cases += 1;
+                let own = |i: usize| if i == over { skip_code } else { 1 };
+                let want: Result<Vec<i32>, usize> = match seq.iter().enumerate().position(|(i, c)| *c == own(i)) { Some(i) => Err(i), None => Ok(seq.clone()) };
+                let mut context2 = Context { work_directory: work.path().to_path_buf(), temp_directory: temp.path().to_path_buf(), file: std::path::PathBuf::from("doc.md"), config: DocumentConfig::default() };
+                context2.config.defaults.skip_document_code = Some(1);
+                let tcs3: Vec<TestCase> = seq.iter().enumerate().map(|(i, c)| TestCase { title: "t".into(), shell_expression: format!("echo out{i}; (exit {c})"), expectations: vec![], exit_code: None,
+                    line_number: i + 1, config: TestCaseConfig { skip_document_code: Some(own(i)), ..TestCaseConfig::empty() } }).collect();
+                let refs3: Vec<&TestCase> = tcs3.iter().collect();
+                let got = show(stateful().execute_all(&refs3, &context2));
+                let ok = match (&want, &got) { (Ok(w), Ok(g)) => w == g, (Err(i), Err(g)) => g == &format!("skipped at {i}"), _ => false };
+                if !ok && bad.len() < 8 {
+                    bad.push(format!("{{\"why\":{},\"case\":{}}}", jstr(&format!("C15: stateful executor, exit codes {seq:?}, document skip code 1, test case {} overrides it with {skip_code}: got {got:?}, expected {}", over + 1, match &want { Ok(w) => format!("the exit codes {w:?}"), Err(i) => format!("skipped at {i}") })), jstr(&format!("{seq:?}/doc=1/tc{}={skip_code}", over + 1))));
                 }
             }
         }
